@@ -82,7 +82,7 @@ def count_cases(p, limit, thorough=False):
         from .facts import AnchorMissing
         raise AnchorMissing("ParserError::TooManyLabels / Instruction::AsmEquals")
     ivi = list(equ.vs)[0]
-    counts = [0, 1, limit - 1, limit, limit + 1, limit + 2, 2 * limit, 255, 256, 257, 256 + limit, 256 + limit + 1] + ([512, 513, 65536 + limit] if thorough else [])
+    counts = [0, 1, limit - 1, limit, limit + 1, limit + 2, 2 * limit, 255, 256, 257, 256 + limit, 256 + limit + 1] + ([512, 513, 1024 + limit] if thorough else [])
     bad = []
     for k in counts:
         for mix in ("labels", "mixed"):
